@@ -71,6 +71,9 @@ phdr_cb(struct dl_phdr_info *info, size_t size, void *data)
         return 1;
 }
 
+static __thread char cur_desc[200];
+static const char *cur_family = "host";
+
 static void
 on_fault(int sig, siginfo_t *si, void *u)
 {
@@ -84,6 +87,8 @@ on_fault(int sig, siginfo_t *si, void *u)
                              (unsigned long) (pc - so_base));
         else
                 n = snprintf(buf, sizeof buf, "FAULT other addr=%lx pc=%lx\n", (unsigned long) a, (unsigned long) (pc - so_base));
+        if (write(1, buf, (size_t) n) < 0) {}
+        n = snprintf(buf, sizeof buf, "DESC family=%s %s\n", cur_family, cur_desc);
         if (write(1, buf, (size_t) n) < 0) {}
         _exit(3);
 }
@@ -137,8 +142,45 @@ fill(uint8_t *p, size_t n, uint64_t *s)
         for (size_t i = 0; i < n; i++) p[i] = (uint8_t) sm64(s);
 }
 
-/* ------------------------------------------------------------------ operations on private objects */
-#define BUFSZ 4096
+/* ------------------------------------------------------------------ operations on private objects
+   Every operation draws (or, in sweep mode, is given) a data-pointer alignment 0..63 (odd and
+   1/2/3 mod 4 included), a length class (sub-block .. multi-block) and a variant (split points,
+   in-place / out-of-place, key size, streaming mode); what it is about to do is recorded in a
+   thread-local descriptor that the fault handler prints. */
+#define REG 8192                /* three data regions per thread */
+#define BUFSZ (3 * REG)
+
+struct opcfg { int force; int align; uint32_t len; int variant; };
+static __thread struct opcfg cfg;
+
+static int
+pick_align(uint64_t *s)
+{
+        if (cfg.force) return cfg.align & 63;
+        switch (sm64(s) % 8) {
+        case 0: case 1: return 0;
+        case 2: return 1;
+        case 3: return 2;
+        case 4: return 3;
+        case 5: return (int) (2 * (sm64(s) % 32) + 1);
+        case 6: return (int) (sm64(s) % 64);
+        default: return (int) (4 * (sm64(s) % 16));
+        }
+}
+static uint32_t
+pick_len(uint64_t *s, uint32_t small, uint32_t big)
+{
+        if (cfg.force) return cfg.len > big ? big : cfg.len;
+        return (uint32_t) ((sm64(s) % 4) ? sm64(s) % small : sm64(s) % big);
+}
+static int
+pick_var(uint64_t *s, int n)
+{
+        if (cfg.force) { int v = cfg.variant % n; cfg.variant /= n; return v; }
+        return (int) (sm64(s) % (uint64_t) n);
+}
+#define DESC(kind, al, len, var)                                                                   \
+        snprintf(cur_desc, sizeof cur_desc, "op=%s align=%d len=%u variant=%d", kind, (int) (al), (unsigned) (len), (int) (var))
 
 #define HASH_OP(NAME, PFX, MGR, CTX, NW)                                                           \
         static uint64_t op_##NAME(uint64_t *s, uint8_t *buf)                                        \
@@ -147,22 +189,26 @@ fill(uint8_t *p, size_t n, uint64_t *s)
                 if (posix_memalign((void **) &m, 64, sizeof *m)) return 1;                          \
                 CTX c[5], *r;                                                                      \
                 uint64_t h = 14695981039346656037ull;                                              \
-                int nc = 1 + (int) (sm64(s) % 5);                                                  \
+                int al = pick_align(s), var = pick_var(s, 10);                                     \
+                int nc = 1 + var % 5, split = var / 5;                                             \
+                uint32_t len0 = pick_len(s, 700, 3000);                                            \
+                DESC(#NAME, al, len0, var);                                                        \
                 PFX##_ctx_mgr_init(m);                                                             \
                 uint32_t lens[5];                                                                  \
                 for (int i = 0; i < nc; i++) {                                                     \
                         isal_hash_ctx_init(&c[i]);                                                 \
-                        lens[i] = (uint32_t) (sm64(s) % 700);                                      \
+                        lens[i] = i == 0 ? len0 : (uint32_t) (sm64(s) % 700);                      \
                 }                                                                                  \
-                fill(buf, BUFSZ, s);                                                               \
+                fill(buf, REG, s);                                                                 \
                 for (int i = 0; i < nc; i++) {                                                     \
+                        const uint8_t *d = buf + al + 67 * i;                                      \
                         uint32_t half = lens[i] & ~63u;                                            \
-                        if (half && (sm64(s) & 1)) {                                               \
-                                r = PFX##_ctx_mgr_submit(m, &c[i], buf + 64 * i, half, ISAL_HASH_FIRST); \
+                        if (half && split) {                                                       \
+                                r = PFX##_ctx_mgr_submit(m, &c[i], d, half, ISAL_HASH_FIRST);      \
                                 while (isal_hash_ctx_processing(&c[i])) r = PFX##_ctx_mgr_flush(m); \
-                                r = PFX##_ctx_mgr_submit(m, &c[i], buf + 64 * i + half, lens[i] - half, ISAL_HASH_LAST); \
+                                r = PFX##_ctx_mgr_submit(m, &c[i], d + half, lens[i] - half, ISAL_HASH_LAST); \
                         } else                                                                     \
-                                r = PFX##_ctx_mgr_submit(m, &c[i], buf + 64 * i, lens[i], ISAL_HASH_ENTIRE); \
+                                r = PFX##_ctx_mgr_submit(m, &c[i], d, lens[i], ISAL_HASH_ENTIRE);  \
                         (void) r;                                                                  \
                 }                                                                                  \
                 while (PFX##_ctx_mgr_flush(m)) {}                                                  \
@@ -180,8 +226,13 @@ static uint64_t
 op_mh(uint64_t *s, uint8_t *buf)
 {
         uint64_t h = 1469598103934665603ull;
-        uint32_t len = (uint32_t) (sm64(s) % 3000), cut = len ? (uint32_t) (sm64(s) % len) : 0;
-        fill(buf, BUFSZ, s);
+        int al = pick_align(s), var = pick_var(s, 4);
+        uint32_t len = pick_len(s, 3000, 6000);
+        /* split point: none / inside the first block / after whole blocks / anywhere */
+        uint32_t cut = var == 0 ? len : var == 1 ? (len < 100 ? len : 100) : var == 2 ? (len & ~1023u) : (len ? (uint32_t) (sm64(s) % len) : 0);
+        DESC("mh", al, len, var);
+        fill(buf, REG, s);
+        const uint8_t *d = buf + al;
         struct isal_mh_sha1_ctx *c1;
         struct isal_mh_sha256_ctx *c2;
         struct isal_mh_sha1_murmur3_x64_128_ctx *c3;
@@ -190,10 +241,10 @@ op_mh(uint64_t *s, uint8_t *buf)
                 return 1;
         uint32_t d1[5], d2[8], d3[5];
         uint64_t mur[2];
-        _mh_sha1_init(c1); _mh_sha1_update(c1, buf, cut); _mh_sha1_update(c1, buf + cut, len - cut); _mh_sha1_finalize(c1, d1);
-        _mh_sha256_init(c2); _mh_sha256_update(c2, buf, cut); _mh_sha256_update(c2, buf + cut, len - cut); _mh_sha256_finalize(c2, d2);
-        _mh_sha1_murmur3_x64_128_init(c3, sm64(s)); _mh_sha1_murmur3_x64_128_update(c3, buf, cut);
-        _mh_sha1_murmur3_x64_128_update(c3, buf + cut, len - cut); _mh_sha1_murmur3_x64_128_finalize(c3, d3, mur);
+        _mh_sha1_init(c1); _mh_sha1_update(c1, d, cut); _mh_sha1_update(c1, d + cut, len - cut); _mh_sha1_finalize(c1, d1);
+        _mh_sha256_init(c2); _mh_sha256_update(c2, d, cut); _mh_sha256_update(c2, d + cut, len - cut); _mh_sha256_finalize(c2, d2);
+        _mh_sha1_murmur3_x64_128_init(c3, sm64(s)); _mh_sha1_murmur3_x64_128_update(c3, d, cut);
+        _mh_sha1_murmur3_x64_128_update(c3, d + cut, len - cut); _mh_sha1_murmur3_x64_128_finalize(c3, d3, mur);
         h = fold(h, d1, sizeof d1); h = fold(h, d2, sizeof d2); h = fold(h, d3, sizeof d3); h = fold(h, mur, sizeof mur);
         free(c1); free(c2); free(c3);
         return h;
@@ -203,16 +254,18 @@ static uint64_t
 op_cbc(uint64_t *s, uint8_t *buf)
 {
         uint8_t key[32], __attribute__((aligned(16))) iv[16], __attribute__((aligned(16))) ek[16 * 15], __attribute__((aligned(16))) dk[16 * 15];
-        uint8_t *ct = buf + 1024, *pt = buf + 2048;
-        uint64_t h = 99, len = 16 * (1 + sm64(s) % 40);
-        int which = (int) (sm64(s) % 3);
-        fill(key, 32, s); fill(iv, 16, s); fill(buf, 1024, s);
-        if (which == 0) { isal_aes_keyexp_128(key, ek, dk); isal_aes_cbc_enc_128(buf, iv, ek, ct, len); isal_aes_cbc_dec_128(ct, iv, dk, pt, len); }
-        else if (which == 1) { _aes_keyexp_192(key, ek, dk); _aes_cbc_enc_192(buf, iv, ek, ct, len); _aes_cbc_dec_192(ct, iv, dk, pt, len); }
-        else { _aes_keyexp_256(key, ek, dk); _aes_cbc_enc_256(buf, iv, ek, ct, len); _aes_cbc_dec_256(ct, iv, dk, pt, len); }
-        h = fold(h, ct, len);
+        int al = pick_align(s), var = pick_var(s, 6), which = var % 3, inplace = var / 3;
+        uint64_t h = 99, len = 16 * (1 + pick_len(s, 40 * 16, 400 * 16) / 16);
+        DESC("cbc", al, len, var);
+        uint8_t *in = buf + al, *ct = buf + REG + ((al * 7) & 63), *pt = buf + 2 * REG + ((al * 13) & 63);
+        fill(key, 32, s); fill(iv, 16, s); fill(in, (size_t) len, s);
+        if (inplace) { memcpy(ct, in, (size_t) len); pt = ct; }
+        const uint8_t *src = inplace ? ct : in;
+        if (which == 0) { isal_aes_keyexp_128(key, ek, dk); isal_aes_cbc_enc_128(src, iv, ek, ct, len); h = fold(h, ct, len); isal_aes_cbc_dec_128(ct, iv, dk, pt, len); }
+        else if (which == 1) { _aes_keyexp_192(key, ek, dk); _aes_cbc_enc_192((void *) src, iv, ek, ct, len); h = fold(h, ct, len); _aes_cbc_dec_192(ct, iv, dk, pt, len); }
+        else { _aes_keyexp_256(key, ek, dk); _aes_cbc_enc_256((void *) src, iv, ek, ct, len); h = fold(h, ct, len); _aes_cbc_dec_256(ct, iv, dk, pt, len); }
         h = fold(h, pt, len);
-        if (memcmp(pt, buf, len)) h ^= 0xbadbadbad;
+        if (memcmp(pt, in, len)) h ^= 0xbadbadbad;
         _aes_keyexp_128_enc(key, ek);
         return fold(h, ek, 16 * 11);
 }
@@ -224,43 +277,45 @@ op_gcm(uint64_t *s, uint8_t *buf)
         struct isal_gcm_context_data *c;
         if (posix_memalign((void **) &k, 64, sizeof *k) || posix_memalign((void **) &c, 64, sizeof *c)) return 1;
         uint8_t key[32], iv[12], aad[24], tag[16], tag2[16];
-        /* 64-byte aligned text buffers (the nt variants require it) */
-        uint8_t *in = (uint8_t *) (((uintptr_t) buf + 63) & ~(uintptr_t) 63), *ct = in + 1024, *pt = in + 2048;
-        uint64_t h = 7, len = sm64(s) % 900, cut = len ? (sm64(s) % len) & ~15ull : 0;
-        int k256 = (int) (sm64(s) & 1), mode = (int) (sm64(s) % 4);
-        fill(key, 32, s); fill(iv, 12, s); fill(aad, 24, s); fill(in, 1024, s);
+        int al = pick_align(s), var = pick_var(s, 16), k256 = var & 1, mode = (var >> 1) & 3, inplace = var >> 3;
+        uint64_t h = 7, len = pick_len(s, 900, 4000), cut = len ? (sm64(s) % len) & ~15ull : 0;
+        if (mode >= 2) { al = 0; len &= ~63ull; }     /* the nt variants require 64-byte aligned text */
+        DESC("gcm", al, len, var);
+        uint8_t *in = buf + al, *ct = buf + REG + (mode >= 2 ? 0 : (al * 7) & 63), *pt = buf + 2 * REG + (mode >= 2 ? 0 : (al * 13) & 63);
+        fill(key, 32, s); fill(iv, 12, s); fill(aad, 24, s); fill(in, (size_t) len, s);
+        if (inplace) { memcpy(ct, in, (size_t) len); pt = ct; }
+        const uint8_t *src = inplace ? ct : in;
         if (k256) _aes_gcm_pre_256(key, k); else _aes_gcm_pre_128(key, k);
+        uint64_t hc = 0;
         if (mode == 0) {
                 /* through the public isal_* wrappers (parameter checks, FIPS gate, then the dispatched entry) */
-                if (k256) { isal_aes_gcm_enc_256(k, c, ct, in, len, iv, aad, 20, tag, 16); isal_aes_gcm_dec_256(k, c, pt, ct, len, iv, aad, 20, tag2, 16); }
-                else { isal_aes_gcm_enc_128(k, c, ct, in, len, iv, aad, 20, tag, 16); isal_aes_gcm_dec_128(k, c, pt, ct, len, iv, aad, 20, tag2, 16); }
+                if (k256) { isal_aes_gcm_enc_256(k, c, ct, src, len, iv, aad, 20, tag, 16); hc = fold(7, ct, len); isal_aes_gcm_dec_256(k, c, pt, ct, len, iv, aad, 20, tag2, 16); }
+                else { isal_aes_gcm_enc_128(k, c, ct, src, len, iv, aad, 20, tag, 16); hc = fold(7, ct, len); isal_aes_gcm_dec_128(k, c, pt, ct, len, iv, aad, 20, tag2, 16); }
         } else if (mode == 1) {
                 if (k256) {
-                        _aes_gcm_init_256(k, c, iv, aad, 20); _aes_gcm_enc_256_update(k, c, ct, in, cut); _aes_gcm_enc_256_update(k, c, ct + cut, in + cut, len - cut);
-                        _aes_gcm_enc_256_finalize(k, c, tag, 16);
+                        _aes_gcm_init_256(k, c, iv, aad, 20); _aes_gcm_enc_256_update(k, c, ct, src, cut); _aes_gcm_enc_256_update(k, c, ct + cut, src + cut, len - cut);
+                        _aes_gcm_enc_256_finalize(k, c, tag, 16); hc = fold(7, ct, len);
                         _aes_gcm_init_256(k, c, iv, aad, 20); _aes_gcm_dec_256_update(k, c, pt, ct, cut); _aes_gcm_dec_256_update(k, c, pt + cut, ct + cut, len - cut);
                         _aes_gcm_dec_256_finalize(k, c, tag2, 16);
                 } else {
-                        _aes_gcm_init_128(k, c, iv, aad, 20); _aes_gcm_enc_128_update(k, c, ct, in, cut); _aes_gcm_enc_128_update(k, c, ct + cut, in + cut, len - cut);
-                        _aes_gcm_enc_128_finalize(k, c, tag, 16);
+                        _aes_gcm_init_128(k, c, iv, aad, 20); _aes_gcm_enc_128_update(k, c, ct, src, cut); _aes_gcm_enc_128_update(k, c, ct + cut, src + cut, len - cut);
+                        _aes_gcm_enc_128_finalize(k, c, tag, 16); hc = fold(7, ct, len);
                         _aes_gcm_init_128(k, c, iv, aad, 20); _aes_gcm_dec_128_update(k, c, pt, ct, cut); _aes_gcm_dec_128_update(k, c, pt + cut, ct + cut, len - cut);
                         _aes_gcm_dec_128_finalize(k, c, tag2, 16);
                 }
         } else if (mode == 2) {
-                len &= ~63ull;
-                if (k256) { _aes_gcm_enc_256_nt(k, c, ct, in, len, iv, aad, 20, tag, 16); _aes_gcm_dec_256_nt(k, c, pt, ct, len, iv, aad, 20, tag2, 16); }
-                else { _aes_gcm_enc_128_nt(k, c, ct, in, len, iv, aad, 20, tag, 16); _aes_gcm_dec_128_nt(k, c, pt, ct, len, iv, aad, 20, tag2, 16); }
+                if (k256) { _aes_gcm_enc_256_nt(k, c, ct, src, len, iv, aad, 20, tag, 16); hc = fold(7, ct, len); _aes_gcm_dec_256_nt(k, c, pt, ct, len, iv, aad, 20, tag2, 16); }
+                else { _aes_gcm_enc_128_nt(k, c, ct, src, len, iv, aad, 20, tag, 16); hc = fold(7, ct, len); _aes_gcm_dec_128_nt(k, c, pt, ct, len, iv, aad, 20, tag2, 16); }
         } else {
-                len &= ~63ull;
                 if (k256) {
-                        _aes_gcm_init_256(k, c, iv, aad, 20); _aes_gcm_enc_256_update_nt(k, c, ct, in, len); _aes_gcm_enc_256_finalize(k, c, tag, 16);
+                        _aes_gcm_init_256(k, c, iv, aad, 20); _aes_gcm_enc_256_update_nt(k, c, ct, src, len); _aes_gcm_enc_256_finalize(k, c, tag, 16); hc = fold(7, ct, len);
                         _aes_gcm_init_256(k, c, iv, aad, 20); _aes_gcm_dec_256_update_nt(k, c, pt, ct, len); _aes_gcm_dec_256_finalize(k, c, tag2, 16);
                 } else {
-                        _aes_gcm_init_128(k, c, iv, aad, 20); _aes_gcm_enc_128_update_nt(k, c, ct, in, len); _aes_gcm_enc_128_finalize(k, c, tag, 16);
+                        _aes_gcm_init_128(k, c, iv, aad, 20); _aes_gcm_enc_128_update_nt(k, c, ct, src, len); _aes_gcm_enc_128_finalize(k, c, tag, 16); hc = fold(7, ct, len);
                         _aes_gcm_init_128(k, c, iv, aad, 20); _aes_gcm_dec_128_update_nt(k, c, pt, ct, len); _aes_gcm_dec_128_finalize(k, c, tag2, 16);
                 }
         }
-        h = fold(h, ct, len); h = fold(h, tag, 16); h = fold(h, tag2, 16);
+        h = hc; h = fold(h, tag, 16); h = fold(h, tag2, 16);
         if (memcmp(pt, in, len) || memcmp(tag, tag2, 16)) h ^= 0xbadbadbad;
         free(k); free(c);
         return h;
@@ -271,23 +326,25 @@ op_xts(uint64_t *s, uint8_t *buf)
 {
         uint8_t k1[32], k2[32], tw[16], __attribute__((aligned(16))) e1[16 * 15], __attribute__((aligned(16))) d1[16 * 15],
                 __attribute__((aligned(16))) e2[16 * 15], __attribute__((aligned(16))) d2[16 * 15];
-        uint8_t *ct = buf + 1024, *pt = buf + 2048, *ct2 = buf + 3072;
-        uint64_t h = 5, len = 16 + sm64(s) % 900;
-        int k256 = (int) (sm64(s) & 1);
-        fill(k1, 32, s); fill(k2, 32, s); fill(tw, 16, s); fill(buf, 1024, s);
+        int al = pick_align(s), var = pick_var(s, 4), k256 = var & 1, inplace = var >> 1;
+        uint64_t h = 5, len = 16 + pick_len(s, 900, 2400);
+        DESC("xts", al, len, var);
+        uint8_t *in = buf + al, *ct = buf + REG + ((al * 7) & 63), *pt = buf + 2 * REG + ((al * 13) & 63), *ct2 = buf + REG + 4096 + ((al * 3) & 63);
+        fill(k1, 32, s); fill(k2, 32, s); fill(tw, 16, s); fill(in, (size_t) len, s);
+        if (inplace) { memcpy(ct, in, (size_t) len); pt = ct; }
+        const uint8_t *src = inplace ? ct : in;
         if (k256) {
-                _XTS_AES_256_enc(k2, k1, tw, len, buf, ct); _XTS_AES_256_dec(k2, k1, tw, len, ct, pt);
                 _aes_keyexp_256(k1, e1, d1); _aes_keyexp_256(k2, e2, d2);
-                _XTS_AES_256_enc_expanded_key(e2, e1, tw, len, buf, ct2); h = fold(h, ct2, len);
+                _XTS_AES_256_enc_expanded_key(e2, e1, tw, len, in, ct2); h = fold(h, ct2, len);
                 _XTS_AES_256_dec_expanded_key(e2, d1, tw, len, ct2, ct2);
+                _XTS_AES_256_enc(k2, k1, tw, len, src, ct); h = fold(h, ct, len); _XTS_AES_256_dec(k2, k1, tw, len, ct, pt);
         } else {
-                isal_aes_xts_enc_128(k2, k1, tw, len, buf, ct); isal_aes_xts_dec_128(k2, k1, tw, len, ct, pt);
                 _aes_keyexp_128(k1, e1, d1); _aes_keyexp_128(k2, e2, d2);
-                _XTS_AES_128_enc_expanded_key(e2, e1, tw, len, buf, ct2); h = fold(h, ct2, len);
+                _XTS_AES_128_enc_expanded_key(e2, e1, tw, len, in, ct2); h = fold(h, ct2, len);
                 _XTS_AES_128_dec_expanded_key(e2, d1, tw, len, ct2, ct2);
+                isal_aes_xts_enc_128(k2, k1, tw, len, src, ct); h = fold(h, ct, len); isal_aes_xts_dec_128(k2, k1, tw, len, ct, pt);
         }
-        h = fold(h, ct, len);
-        if (memcmp(pt, buf, len) || memcmp(ct2, buf, len)) h ^= 0xbadbadbad;
+        if (memcmp(pt, in, len) || memcmp(ct2, in, len)) h ^= 0xbadbadbad;
         return h;
 }
 
@@ -297,14 +354,17 @@ op_roll(uint64_t *s, uint8_t *buf)
         struct isal_rh_state2 *st;
         if (posix_memalign((void **) &st, 64, sizeof *st)) return 1;
         uint64_t h = 3;
-        uint32_t w = 1 + (uint32_t) (sm64(s) % 48), off = 0, mask = 0x3f, trig = (uint32_t) sm64(s) & 0x3f;
+        int al = pick_align(s), var = pick_var(s, 48);
+        uint32_t w = 1 + (uint32_t) var, off = 0, mask = 0x3f, trig = (uint32_t) sm64(s) & 0x3f, total = 64 + pick_len(s, 3000, 7000);
         int match = 0;
-        fill(buf, BUFSZ, s);
+        DESC("roll", al, total, var);
+        fill(buf, REG, s);
+        uint8_t *d = buf + al;
         _rolling_hash2_init(st, w);
-        _rolling_hash2_reset(st, buf);
+        _rolling_hash2_reset(st, d);
         uint32_t pos = 64;
-        for (int i = 0; i < 6 && pos < 3000; i++) {
-                match = _rolling_hash2_run(st, buf + pos, 3000 - pos, mask, trig, &off);
+        for (int i = 0; i < 6 && pos < total; i++) {
+                match = _rolling_hash2_run(st, d + pos, total - pos, mask, trig, &off);
                 h = fold(h, &off, 4); h = fold(h, &match, 4);
                 pos += off;
         }
@@ -314,6 +374,8 @@ op_roll(uint64_t *s, uint8_t *buf)
 
 typedef uint64_t (*opfn)(uint64_t *, uint8_t *);
 static opfn OPS[] = { op_sha1, op_sha256, op_sha512, op_md5, op_sm3, op_mh, op_cbc, op_gcm, op_xts, op_roll };
+static const char *OPNAMES[] = { "sha1", "sha256", "sha512", "md5", "sm3", "mh", "cbc", "gcm", "xts", "roll" };
+static const int OPVARS[] = { 10, 10, 10, 10, 10, 4, 6, 16, 4, 48 };
 #define NOPS ((int) (sizeof OPS / sizeof OPS[0]))
 
 struct job { uint64_t seed; int nops; uint64_t *res; int rotate; };
@@ -353,15 +415,56 @@ run_parallel(struct job *jobs, int n)
         return 0;
 }
 
+static char names[128][96];
+static void **ptrs[128];
+static void *mbinit[128], *bound[128];
+
+/* targeted search: the given operation kinds under the given family presets, single-threaded,
+   library data write-protected, over a grid of alignments x length classes x variants */
+static int
+sweep(const char *kinds, const char *fams, int ne, uint64_t seed)
+{
+        static const uint32_t lens[] = { 0, 1, 15, 16, 17, 63, 64, 65, 127, 128, 129, 255, 256, 257, 511, 512, 1023, 1024, 1025,
+                                         2047, 2048, 2049, 3071, 3072, 3073, 4096, 4097, 5120 };
+        uint8_t *buf;
+        if (posix_memalign((void **) &buf, 64, BUFSZ + 64)) return 2;
+        char fl[256];
+        strncpy(fl, fams, sizeof fl - 1); fl[sizeof fl - 1] = 0;
+        for (char *fam = strtok(fl, ","); fam; fam = strtok(NULL, ",")) {
+                if (so_preset(fam)) continue;
+                cur_family = fam;
+                for (int i = 0; i < ne; i++) *ptrs[i] = mbinit[i];
+                for (int k = 0; k < NOPS; k++) {
+                        if (!strstr(kinds, OPNAMES[k])) continue;
+                        uint64_t s = seed;
+                        long calls = 0;
+                        /* bind (unprotected) */
+                        cfg.force = 0;
+                        for (int i = 0; i < 8; i++) OPS[k](&s, buf);
+                        if (mprotect((void *) rw_lo, rw_hi - rw_lo, PROT_READ)) return 2;
+                        for (int al = 0; al < 64; al++)
+                                for (unsigned li = 0; li < sizeof lens / sizeof lens[0]; li++)
+                                        for (int v = 0; v < OPVARS[k]; v += (OPVARS[k] > 16 ? 5 : 1)) {
+                                                cfg.force = 1; cfg.align = al; cfg.len = lens[li]; cfg.variant = v;
+                                                OPS[k](&s, buf);
+                                                calls++;
+                                        }
+                        cfg.force = 0;
+                        if (mprotect((void *) rw_lo, rw_hi - rw_lo, PROT_READ | PROT_WRITE)) return 2;
+                        printf("S family=%s op=%s calls=%ld nofault\n", fam, OPNAMES[k], calls);
+                        fflush(stdout);
+                }
+        }
+        so_preset("host");
+        return 0;
+}
+
 int
 main(int argc, char **argv)
 {
         int nth = argc > 1 ? atoi(argv[1]) : 16, nops = argc > 2 ? atoi(argv[2]) : 40, rounds = argc > 3 ? atoi(argv[3]) : 50;
         uint64_t seed = argc > 4 ? strtoull(argv[4], NULL, 10) : 1;
         if (nth < 1 || nth > 256) return 2;
-        static char names[128][96];
-        static void **ptrs[128];
-        static void *mbinit[128], *bound[128];
         int ne = 0;
         char line[256];
         void *self = dlopen(NULL, RTLD_NOW);
@@ -393,6 +496,8 @@ main(int argc, char **argv)
         sigaction(SIGSEGV, &sa, NULL);
         sigaction(SIGBUS, &sa, NULL);
 
+        if (argc > 7 && !strcmp(argv[5], "sweep")) return sweep(argv[6], argv[7], ne, seed);
+
         /* ---------------- phase A, once per implementation family (virtual CPUID presets of the hook
            build: the real dispatchers bind the family; a static written by one family only must
            show up when that family runs) */
@@ -405,6 +510,7 @@ main(int argc, char **argv)
         static const char *presets[] = { "host", "base", "sse", "avx", "avx2", "avx512", "avx512g2", "sse_ni", "avx512_ni" };
         for (int pi = 0; pi < 9; pi++) {
                 if (so_preset(presets[pi])) continue;
+                cur_family = presets[pi];
                 for (int i = 0; i < ne; i++) *ptrs[i] = mbinit[i];
                 for (int t = 0; t < nth; t++) {
                         jobs[t].seed = ref[t].seed = seed * 1000003 + (uint64_t) t * 7919 + (uint64_t) pi * 104729;
@@ -433,6 +539,7 @@ main(int argc, char **argv)
                 fflush(stdout);
         }
         so_preset("host");
+        cur_family = "host(race)";
         for (int i = 0; i < ne; i++) *ptrs[i] = mbinit[i];
         { uint64_t r[NOPS * 4]; struct job w = { seed ^ 0x5555, NOPS * 4, r, 0 }; run_job(&w); }
         for (int i = 0; i < ne; i++) bound[i] = *ptrs[i];
